@@ -141,7 +141,7 @@ func alphabet(n int) []event {
 
 func enumerate() []history {
 	th := ev.Thorough()
-	var out []history
+	var out, front []history
 	sizes := []int{1, 2, 3}
 	if th {
 		sizes = []int{1, 2, 3, 4}
@@ -224,7 +224,7 @@ func enumerate() []history {
 	for _, gone := range []event{{Kind: "rm", At: "L", Tgt: "F"}, {Kind: "rm", At: "F", Tgt: "self"}, {Kind: "leave"}} {
 		for _, ch := range []event{{Kind: "unpin", At: "F", C: 0}, {Kind: "updpin", At: "L"}, {Kind: "pin", At: "F", C: 1}, {Kind: "pinexp", At: "L"}} {
 			evs := []event{{Kind: "pin", At: "L", C: 0}, gone, ch, {Kind: "rejoin", At: "L"}}
-			out = append(out, history{N: 2, Evs: evs}, history{N: 2, Evs: evs, SNAP: true})
+			front = append(front, history{N: 2, Evs: evs}, history{N: 2, Evs: evs, SNAP: true})
 		}
 	}
 	// the same with eager snapshots, for the histories of length <= 3 on 1-2
@@ -249,7 +249,8 @@ func enumerate() []history {
 			out = append(out, history{N: h.N, Evs: h.Evs, CR0: true})
 		}
 	}
-	return out
+	// (the short targeted families run first: a time-capped run still covers them)
+	return append(front, out...)
 }
 
 // ---------- world ----------
@@ -903,7 +904,7 @@ func TestHistories(t *testing.T) {
 	}
 	shard, _ := strconv.Atoi(ev.ChildUnit())
 	sec := R.Sec(fmt.Sprintf("shard-%d", shard))
-	budget := 150 * time.Second
+	budget := 270 * time.Second
 	if ev.Thorough() {
 		budget = 30 * time.Minute
 	}
